@@ -46,7 +46,7 @@ def run(ctx):
                    "~ack, forced ack / error data exactly on expiry; built from timeout_cycles on the shared bus, after the Decoder so that its "
                    "forced termination wins (same obligations as C11.T1-T3)", min_sites=8)
     ctx.rule("PRIO", "no dead driver", min_sites=0)
-    ctx.rule("W7", "crossbar access matrix is indexed [master][slave]: decoders take rows, arbiters take columns", min_sites=4)
+    ctx.rule("W7", "crossbar access matrix is indexed [master][slave]: decoders take rows, arbiters take columns", min_sites=2)
     from ..rules_xbar import crossbar_shape
     crossbar_shape(ctx, "W7", WB, "Crossbar", "Decoder", "Arbiter")
     from .c11 import wb_timeout_body, timeout_in_interconnect
